@@ -155,25 +155,39 @@ func checkC03(c *Ctx, w *World) {
 				continue
 			}
 			rng, _ := nx.Iter.(*ssa.Range)
-			if rng == nil || !isLoadOf(rng.X, "gcpBalancer.scStates") || !l.Header.Dominates(call.Block()) || l.Blocks[call.Block()] {
+			if rng == nil || !isLoadOf(rng.X, "gcpBalancer.scStates") || l.Blocks[call.Block()] {
 				continue
 			}
-			isV := func(v ssa.Value) bool {
-				e, ok := stripConv(v).(*ssa.Extract)
-				return ok && e.Tuple == nx && e.Index == 2
-			}
-			cs := newCondSpace(nsl, recOf(eqAtom("elIdle", isV, constIs(pl.Idle)), eqAtom("elConnecting", isV, constIs(pl.Connecting))), "elIdle", "elConnecting")
-			cs.ExclusiveAtoms("elIdle", "elConnecting")
-			// inside the loop body: elIdle ∨ elConnecting ⇒ a return is reached (before the back edge)
-			body := nx.Block().Succs[0]
-			quit := cs.False()
-			for _, r := range returnsOf(nsl) {
-				if l.Blocks[r.Block()] || reachableWithin(body, r.Block(), l) {
-					quit = or(quit, cs.Reach(r))
+			if !l.Header.Dominates(call.Block()) {
+				// or: no way to the creation goes around the scan (an earlier refusal that skips the scan also skips the creation)
+				acs := newCondSpaceAvoid(nsl, nil, map[*ssa.BasicBlock]bool{l.Header: true})
+				if acs.Satisfiable(acs.Reach(call)) {
+					continue
 				}
 			}
-			imp, wit := cs.Implies(and(cs.ReachBlock(body), cs.Or(cs.Atom("elIdle"), cs.Atom("elConnecting"))), quit)
-			if imp {
+			// the entry's state: the scan's value, or the table read under the scan's key
+			isV := (&rangeLoop{Loop: l, Next: nx, Range: rng}).val
+			cs := newCondSpace(nsl, recOf(eqAtom("elIdle", isV, constIs(pl.Idle)), eqAtom("elConnecting", isV, constIs(pl.Connecting))), "elIdle", "elConnecting")
+			cs.ExclusiveAtoms("elIdle", "elConnecting")
+			// an iteration that sees an Idle or Connecting entry neither goes on to the next entry nor reaches the creation
+			// (it returns at once, or reports through a flag that makes the function return)
+			body := nx.Block().Succs[0]
+			pending := and(cs.ReachBlock(body), cs.Or(cs.Atom("elIdle"), cs.Atom("elConnecting")))
+			wit := ""
+			if !cs.Seen("elIdle") || !cs.Seen("elConnecting") {
+				wit = "the scan does not test for both Idle and Connecting"
+			}
+			if cs.Satisfiable(and(pending, cs.Reach(call))) {
+				_, wit = cs.Implies(and(pending, cs.Reach(call)), cs.False())
+			}
+			for _, lt := range l.Latch {
+				for bi, sb := range lt.Succs {
+					if sb == l.Header && cs.Satisfiable(and(pending, cs.EdgeCond(lt, bi))) {
+						_, wit = cs.Implies(and(pending, cs.EdgeCond(lt, bi)), cs.False())
+					}
+				}
+			}
+			if wit == "" {
 				good = true
 			} else {
 				why = "an Idle or Connecting entry does not stop the creation: " + wit
